@@ -106,6 +106,9 @@ def main():
         vol = construct.construct_volume('w', s0, s1, degree=1)
         grid, filled = voxelize.voxelize(vol, grid_size=(4, 4, 4), num_procs=nproc, tol=0.26)
         out['filled'] = list(filled); out['n'] = len(grid)
+        # a grid whose number of voxels (45) is not divisible by 2, 4 or 8
+        grid2, filled2 = voxelize.voxelize(vol, grid_size=(5, 3, 3), num_procs=nproc, tol=0.26)
+        out['filled2'] = list(filled2); out['n2'] = len(grid2)
     print(json.dumps(out))
 
 
